@@ -359,4 +359,6 @@ CHECKS["C03"]["level_note"] = CHECKS["C03"]["level_note"].replace("<= 5 sub-dist
 CHECKS["C12"]["rule"] += " One TestC12Modules case in ten starts from a big vesting state: 101-150 owners with a pool each and as many recorded vesting accounts."
 for _pid in ("C06", "C15", "C17", "C19"):
     CHECKS[_pid]["rule"] += " The queries the oracle reads are asked through the application's gRPC query router (path + marshalled request), as a client asks them."
+CHECKS["C17"]["rule"] += " A third vesting type has no lockup and no vesting period (accounts sent from its pools start and end in the block of the send); two advances in twenty-five jump to the second of the pools' lock end."
+CHECKS["C11"]["rule"] += " Chains start at height 1, 2, 100 or 7654321; block steps from 1 ns and 1 ms."
 
